@@ -491,6 +491,18 @@ func Fail(t testing.TB, kind string, c any, err error) {
 	t.Errorf("%s: %v", kind, err)
 }
 
+// CheckCase runs one hand-driven case: counts it, guards against panics and
+// records a failure.  It reports whether the case passed.
+func CheckCase[C any](t testing.TB, kind string, c C, check func(C) error) bool {
+	t.Helper()
+	Eval(kind)
+	if err := Guard(func() error { return check(c) }); err != nil {
+		Fail(t, kind, c, err)
+		return false
+	}
+	return true
+}
+
 type statsFile struct {
 	Property    string                `json:"property"`
 	Seed        int64                 `json:"seed"`
